@@ -123,6 +123,8 @@ static void checkAgainstModel(const Frames& fr, const Model& m, const Src& s, En
             if (b >= F.size())
                 break;
             const bool eq = F[b] == m.bytes[f][b];
+            if (b < 8)
+                vp_assert(eq, "C12: frame header on the wire: version@0, reserved@1 = 0, device id@2-3 big-endian, message type@4, stream id@5, sequence counter@6-7 big-endian");
             if (b == 0)
                 vp_assert(eq, "C09: frame header carries the batch's protocol version");
             else if (b == 2 || b == 3)
